@@ -75,6 +75,8 @@ type schemaDef struct {
 	byName   map[string]*typeDef
 	query    string
 	mutation string
+	// (C03 only, not in c01's generator) the subscription root type; "": none
+	subscription string
 }
 
 func (s *schemaDef) add(t *typeDef) { s.types = append(s.types, t); s.byName[t.name] = t }
